@@ -598,6 +598,16 @@ func (f *FnVC) val(v ssa.Value) TV {
 		f.vals[v] = tv
 		return tv
 	case *ssa.IndexAddr:
+		if sl, ok := x.X.Type().Underlying().(*types.Slice); ok {
+			// address of a slice element used as a value: a deterministic function of backing array and position
+			fn := f.declFun("eptr_"+shortTypeName(sl.Elem()), []string{"Int", "Int"}, "Int")
+			sv := f.val(x.X).T
+			t := sApp(fn, "(s_ref "+sv+")", sIdx("(s_off "+sv+")", f.val(x.Index).T))
+			f.fact("(> " + t + " 0)")
+			tv := f.tv(t, v.Type())
+			f.vals[v] = tv
+			return tv
+		}
 		// materialised interior pointer: opaque ref
 		t := f.declConst("iptr_"+v.Name(), "Int")
 		f.fact("(> " + t + " 0)")
